@@ -177,6 +177,19 @@ def coq_make(targets, timeout=1500, clean=False):
     return rc == 0, out, failing
 
 
+def _error_lines(out):
+    """The lines of a make log that say what went wrong: each line with 'Error' and the two lines after it (Coq prints
+    the message below the word)."""
+    ls = out.splitlines()
+    keep = []
+    for i, l in enumerate(ls):
+        if "Error" in l or "error" in l:
+            for j in (i, i + 1, i + 2):
+                if j < len(ls) and j not in keep:
+                    keep.append(j)
+    return " | ".join(ls[j].strip() for j in keep)
+
+
 def parse_theorems(prop):
     """Names of the theorems stated in props/<prop>.v (the obligations of the property)."""
     p = os.path.join(COQ, "props", prop + ".v")
@@ -200,6 +213,12 @@ def audit_sources():
                 continue
             txt = open(os.path.join(p, f)).read()
             txt2 = re.sub(r"\(\*.*?\*\)", "", txt, flags=re.S)
+            # coqdep takes `(*` inside a string literal for a comment opener and then misses the Require lines below it:
+            # make would not rebuild what those lines name (stale .vo files, "inconsistent assumptions")
+            lines_raw = txt.splitlines()
+            for i, line in enumerate(lines_raw, 1):
+                if re.search(r'"[^"]*\(\*[^"]*"', line) and any(re.match(r"\s*(From\s+\S+\s+)?Require\b", l) for l in lines_raw[i:]):
+                    bad.append("%s/%s:%d: a string literal containing `(*` above a Require hides dependencies from coqdep" % (d, f, i))
             for i, line in enumerate(txt2.splitlines(), 1):
                 if FORBIDDEN.search(line):
                     bad.append("%s/%s:%d: %s" % (d, f, i, line.strip()[:100]))
@@ -586,7 +605,7 @@ class Ctx:
             failed_sites = [k for k, v in self.sites.items() if v != "ok"]
             self.proof_failure = "make props/%s.vo failed at %s%s: %s" % (
                 prop, failing, (" (extraction sites failed: %s)" % failed_sites) if failed_sites else "",
-                " | ".join(l for l in out.splitlines() if "Error" in l or "error" in l)[:400] or out[-400:])
+                _error_lines(out)[:600] or out[-400:])
             return False
         res, out = print_assumptions(prop, self.obligations, self.scratch)
         if res is None:
